@@ -151,8 +151,36 @@ func main() {
 	}
 	r.AddBenchmark(b)
 	r.Run()
+	fullCheck(b)
 
 	fmt.Println(benchcase.PassMarker)
+}
+
+// fullCheck compares what a workload read back with its own host reference where the
+// workload's Verify() looks at a part of the result only. matrixmultiplication: Verify()'s inner
+// loop tests and advances the outer index (matrixmultiplication.go, "for j := ...; i < ...; i++"),
+// so only the first column of the product is compared; here every element is.
+func fullCheck(b benchmarks.Benchmark) {
+	mm, ok := b.(*matrixmultiplication.Benchmark)
+	if !ok || mm.MatrixC == nil {
+		return
+	}
+	cpu := matrixmultiplication.CPUMatrixMultiplier{}
+	ref := cpu.Multiply(mm.MatrixA, mm.MatrixB)
+	bad, first := 0, -1
+	for i := range ref.Data {
+		if math.Abs(float64(ref.Data[i]-mm.MatrixC.Data[i])) > 1e-3 {
+			bad++
+			if first < 0 {
+				first = i
+			}
+		}
+	}
+	if bad > 0 {
+		fmt.Fprintf(os.Stderr, "BENCHRUN-FULLCHECK-FAIL matrixmultiplication: %d of %d elements of the product read back differ from the workload's own CPU product (first: row %d column %d: expected %f, got %f); Verify() compares one column only\n",
+			bad, len(ref.Data), first/int(ref.Width), first%int(ref.Width), ref.Data[first], mm.MatrixC.Data[first])
+		os.Exit(1)
+	}
 }
 
 // build transcribes the body of /repo/amd/samples/<workload>/main.go with the
